@@ -13,8 +13,13 @@
   decoder returned for it, and the outcome of the fixed-point probe.  It uses the model's *types* and
   the structural reader (frame splitter, UPDATE section reader, TLV readers), never the encoder model.
   `buildable` is the quantifier domain ("every message the daemon can build"); outside it the oracle
-  is silent.  Canonicalisation is exactly: EXTENDED-LENGTH flag bit ignored, FQDN lower-cased; the
+  is silent.  Canonicalisation is exactly: EXTENDED-LENGTH flag bit ignored, FQDN lower-cased,
+  NOTIFICATION data (diagnostic, no route content) cut to what fits the negotiated maximum; the
   AS_PATH / AGGREGATOR a 2-byte peer reconstructs (AS4 reconciliation) must equal the original.
+  `encodable` says whether ANY encoding within the negotiated maximum exists (every entry fits a frame
+  of its own next to the attribute block, the capability block fits its one-octet lengths, every NLRI
+  has a wire form): if not, the only acceptable outcome is a refusal (`Err`), and a refusal is
+  acceptable only then.
 -/
 import Rbgp.Enc.Run
 namespace Rbgp.Enc.Spec
@@ -317,7 +322,12 @@ def asPathCause (attrs : List Attr) : String :=
   | some a =>
       (match parseSegs 4 (wireValue a) with
        | some segs =>
-           if segs.any (fun s => s.1 == 3 || s.1 == 4) then "-confed-segment"
+           let confed := fun (s : Seg) => s.1 == 3 || s.1 == 4
+           -- RFC 6793 cannot carry these: a confederation segment behind a non-confederation one (it is not
+           -- "leading or adjacent to a prepended segment"), a wide AS number inside a confederation segment
+           if (segs.dropWhile confed).any confed then "-confed-segment-not-leading"
+           else if segs.any (fun s => confed s && s.2.any (· > 65535)) then "-confed-segment-wide-as"
+           else if segs.any confed then "-confed-segment"
            else if segs.any (fun s => s.2.isEmpty) then "-empty-segment"
            else ""
        | none => "")
@@ -369,8 +379,8 @@ def frameHasNlri (fr : Bytes) : Bool :=
 
 /-- expected region bytes of the opaque-family entries -/
 def opaqueRegion (addpath : Bool) (es : List Entry) : Option Bytes :=
-  if es.all (fun e => match e.nlri with | .opq (some _) _ => true | _ => false) && !es.isEmpty then
-    some (es.flatMap (fun e => (if addpath then be32 e.pid else []) ++ (match e.nlri with | .opq (some b) _ => b | _ => [])))
+  if es.all (fun e => match e.nlri with | .opq (.ok _) _ => true | _ => false) && !es.isEmpty then
+    some (es.flatMap (fun e => (if addpath then be32 e.pid else []) ++ (match e.nlri with | .opq (.ok b) _ => b | _ => [])))
   else none
 
 /-! ### can the message be encoded at all? (wire sizes from RFC 4271 §4.3, RFC 4760, RFC 6793, RFC 5492) -/
@@ -378,7 +388,8 @@ def opaqueRegion (addpath : Bool) (es : List Entry) : Option Bytes :=
 /-- size of an attribute TLV with a value of `n` bytes -/
 def tlvSize (flags n : Nat) : Nat := (if n > 255 ∨ flags / 16 % 2 = 1 then 4 else 3) + n
 
-/-- wire size of one input attribute towards a peer with / without 4-octet AS support -/
+/-- wire size of one input attribute towards a peer with / without 4-octet AS support (the down-converted
+    AS_PATH / AGGREGATOR keep the stored flags, AS4_PATH / AS4_AGGREGATOR are new attributes) -/
 def attrWireSize (two : Bool) (a : Attr) : Nat :=
   let n := (wireValue a).length
   if two ∧ a.code = 2 then
@@ -387,18 +398,24 @@ def attrWireSize (two : Bool) (a : Attr) : Nat :=
         let small := segs.foldl (fun acc s => acc + 2 + 2 * s.2.length) 0
         let wide := segs.any (fun s => s.2.any (· > 65535))
         let as4 := (segs.filter (fun s => s.1 ≠ 3 ∧ s.1 ≠ 4)).foldl (fun acc s => acc + 2 + 4 * s.2.length) 0
-        tlvSize 0 small + (if wide then tlvSize 0 as4 else 0)
+        tlvSize a.flags small + (if wide then tlvSize 0 as4 else 0)
     | none => tlvSize a.flags n
   else if two ∧ a.code = 7 then
-    tlvSize 0 6 + (if beNat ((wireValue a).take 4) > 65535 then tlvSize 0 8 else 0)
+    tlvSize a.flags 6 + (if beNat ((wireValue a).take 4) > 65535 then tlvSize 0 8 else 0)
   else tlvSize a.flags n
+
+/-- does the NLRI have a wire form at all (a label stack whose bit count exceeds the length octet has none) -/
+def entryEncodable (e : Entry) : Bool :=
+  match e.nlri with
+  | .opq .err _ => false
+  | _ => true
 
 def entryWireSize (addpath : Bool) (e : Entry) : Nat :=
   (if addpath then 4 else 0) +
   (match e.nlri with
    | .ip _ _ mask => 1 + ceil8 mask
-   | .opq (some b) _ => b.length
-   | .opq none _ => 0)
+   | .opq (.ok b) _ => b.length
+   | .opq _ _ => 0)
 
 def capWireSize : Cap → Nat
   | .mp _ => 6 | .rr => 2 | .em => 2 | .err => 2 | .as4 _ => 6
@@ -409,22 +426,34 @@ def capWireSize : Cap → Nat
   | .fqdn h d => 4 + h.length + d.length
   | .unk _ b => 2 + b.length
 
-/-- The smallest conceivable first frame (header, attribute block, section overhead with the shortest
-    next-hop form, first entry) fits the negotiated maximum; for OPEN the capability parameter fits its
-    one-octet lengths; for NOTIFICATION the data fits. -/
+/-- next-hop field of MP_REACH_NLRI: VPN families put an 8-byte RD before each address (RFC 4364 §4.3.2,
+    RFC 4659 §3.2.1) -/
+def nhWireSize (f : Fam) (nh : Option Nh) : Nat :=
+  match nh with
+  | none => 0
+  | some n => n.bytes.length + (if isVpn f then 8 * ((n.bytes.length + 15) / 16) else 0)
+
+/-- bytes of a frame around its NLRI: header, section lengths, attribute block, MP attribute header -/
+def frameBase (i : Input) : Nat :=
+  match i.msg with
+  | .reach f nh attrs es =>
+      let attrsLen := (attrs.map (attrWireSize (!as4Both i.loc i.rem))).sum
+      if f == Fam.ipv4 && !extNhNegotiated i then 23 + attrsLen + (if es.isEmpty then 0 else 7)
+      else 23 + attrsLen + (4 + 3 + 1 + nhWireSize f nh + 1)
+  | .unreach f _ => if f == Fam.ipv4 && !extNhNegotiated i then 23 else 23 + 4 + 3
+  | _ => 19
+
+/-- An encoding within the negotiated maximum exists: every entry has a wire form and fits a frame of its own
+    (header, attribute block, section overhead, the entry); for OPEN the capability parameter fits its
+    one-octet lengths.  (NOTIFICATION data is cut to fit, so it always encodes.) -/
 def encodable (i : Input) : Bool :=
   match i.msg with
   | .open _ _ _ caps => caps.isEmpty || (caps.map capWireSize).sum + 2 ≤ 255
-  | .notif _ _ d => 21 + d.length ≤ maxFrame i
-  | .reach f nh attrs es =>
-      let two := !as4Both i.loc i.rem
-      let attrsLen := (attrs.map (attrWireSize two)).sum
-      let first := match es with | [] => 0 | e :: _ => entryWireSize (addPathTx i f) e
-      let legacy := f == Fam.ipv4 && !extNhNegotiated i
-      let nhLen := match nh with
-        | some (.v4 _) => 4 | some (.v6 _) => 16 | some (.v6ll ..) => 32 | none => 0
-      let over := if legacy then (if es.isEmpty then 0 else 7) else 4 + 3 + 1 + nhLen + 1
-      23 + attrsLen + over + first ≤ maxFrame i
+  | .reach f _ _ es =>
+      frameBase i ≤ maxFrame i &&
+      es.all (fun e => entryEncodable e && frameBase i + entryWireSize (addPathTx i f) e ≤ maxFrame i)
+  | .unreach f es =>
+      es.all (fun e => entryEncodable e && frameBase i + entryWireSize (addPathTx i f) e ≤ maxFrame i)
   | _ => true
 
 /-- first failing clause of a sequence (each clause is only evaluated if the earlier ones passed) -/
@@ -480,7 +509,7 @@ def contentClause (i : Input) (frames : List Bytes) (ps : List Parsed) : Option 
     match i.msg with
     | .open a h r caps =>
         if ps == [.open a h r (caps.map canonCap)] then none else some "open-differs"
-    | .notif c s d => if ps == [.notif c s d] then none else some "notification-differs"
+    | .notif c s d => if ps == [.notif c s (d.take (maxFrame i - 21))] then none else some "notification-differs"
     | .keepalive => if ps == [.keepalive] then none else some "keepalive-differs"
     | .rr f => if ps == [.rr f] then none else some "route-refresh-differs"
     | .eor f => if ps == [.eor f] then none else some "end-of-rib-differs"
@@ -503,7 +532,12 @@ def fpClause : Fp → Option String
 def checkClause0 (i : Input) (o : Obs) : Option String :=
   match o with
   | .panic => some "panic"
-  | .err => some "encode-error"
+  | .err =>
+      -- an encodable input was refused; classified by the recorded cause (IPv4 next hop padded inside MP_REACH)
+      some (match i.msg with
+        | .reach f (some (.v4 _)) _ _ =>
+            if f == Fam.ipv4 && !extNhNegotiated i then "encode-error" else "encode-error-ipv4-in-mp-reach"
+        | _ => "encode-error")
   | .obs n stream dec fp =>
     let frames := (splitFrames stream).1
     orElse' (frameClause i n stream) fun _ =>
